@@ -466,4 +466,9 @@ pub mod verif {
   pub fn write_layout_to_global_config(layout: &crate::keys::Layout) -> Result<(), String> {
     super::write_layout_to_global_config(layout)
   }
+  
+  // Writes /etc/systemd/system/totalmapper@.service exactly as add_systemd_service does.
+  pub fn write_systemd_service(excludes: &[&str]) -> Result<(), String> {
+    super::write_systemd_service(excludes.iter().map(|s| *s))
+  }
 }
